@@ -144,7 +144,12 @@ BigPrintFroms == <<
     FromE(IsNullE("links")),
     FromE(NotE(InE("trip", "tags"))),
     FromE(OrE(InE("food", "tags"), CmpE("type", "=", "open", Quote("open")))),
-    FromE(AndE(InE("trip", "tags"), CmpE("date", "<", 20200601, D20200601))) >> \o ClauseFroms
+    FromE(AndE(InE("trip", "tags"), CmpE("date", "<", 20200601, D20200601))),
+    \* has_account over every directive type: accounts that directives other than transactions name -- a pad names the
+    \* account the amount is taken from next to the one it pads
+    FromE(HasAcct(TRUE, "Equity:Opening")),
+    FromE(HasAcct(FALSE, "slate")),
+    FromE(AndE(HasAcct(FALSE, "Equity"), NotE(CmpE("type", "=", "transaction", Quote("transaction"))))) >> \o ClauseFroms
 BigShapes == MkBal(BigFroms, BigWheres) \o MkJrn(BigFroms, BigAccts) \o MkPrint(BigPrintFroms)
 
 (* ---- PRINT: one abstract directive of every type; the driver holds the concrete directive of every id ---- *)
@@ -192,7 +197,10 @@ PrintFroms == <<
     FromE(NotNullE("tags")),
     FromE(IsNullE("links")),
     FromE(NotE(InE("a-b", "tags"))),
-    FromE(OrE(InE("pay-2021", "links"), CmpE("type", "=", "open", Quote("open")))) >>
+    FromE(OrE(InE("pay-2021", "links"), CmpE("type", "=", "open", Quote("open")))),
+    \* has_account: an account only a pad directive names (as the account the amount is taken from); case-insensitive
+    FromE(HasAcct(TRUE, "Equity:Open")),
+    FromE(AndE(HasAcct(FALSE, "open"), CmpE("year", "=", 2020, "2020"))) >>
 \* memoisation tables: every string and pattern the constants above mention
 RECURSIVE PatsOf(_)
 PatsOf(e) == CASE e.k \in {"match", "hasacct"} -> {e.p}
